@@ -263,6 +263,14 @@ fn gen_graph_nodes<K: Kmer + Send + Sync>(rng: &mut Rng, k: usize, tier: &str, s
         1 => CleanGraph::new(|n: &debruijn::graph::Node<K, u32>| n.len() < 2 * k).find_bad_nodes(&g),
         _ => (0..g.len()).filter(|_| rng.chance(1, 5)).collect(),
     };
+    // a list as a caller may assemble it from several cleaners: repeated ids, any order, ids beyond the graph
+    let mut censor = censor;
+    if rng.chance(1, 4) {
+        for _ in 0..rng.range(1, 3) {
+            if !censor.is_empty() && rng.chance(3, 4) { let x = censor[rng.below(censor.len())]; let at = rng.below(censor.len() + 1); censor.insert(at, x); }
+            else { censor.push(g.len() + rng.below(3)); }
+        }
+    }
     (nodes, censor)
 }
 
@@ -330,7 +338,7 @@ pub fn gen20(rng: &mut Rng, tier: &str) -> String {
             let nodes = match rng.below(8) {
                 0 => "-".to_string(),
                 // one node; now and then on either side of 256 bases (where `Debug` of a sequence stops printing it)
-                1 => { let l = if rng.chance(1, 2) { k + rng.below(6) } else { rng.range(250, 262).max(k) }; let v: Vec<u8> = (0..l).map(|_| rng.below(4) as u8).collect(); format!("{}:00:0", show_digits(&v)) }
+                1 => { let l = if rng.chance(1, 2) { k + rng.below(6) } else if rng.chance(1, 6) { rng.range(8190, 8200) + 8192 * rng.below(2) } else { rng.range(250, 262).max(k) }; let v: Vec<u8> = (0..l).map(|_| rng.below(4) as u8).collect(); format!("{}:00:0", show_digits(&v)) }
                 2 => {
                     // link-free nodes with distinct ends
                     let want = rng.range(2, 4);
